@@ -73,7 +73,7 @@ def pkey(fn, p, limit=2):
     m = dict((n, "_") for n in local_names(fn))
     conds = []
     for t, pol in p.literals():
-        s = A.src_with(t, m)
+        s = A.norm_src(t, m)    # `b > a` reads `a < b`: the key does not depend on how a comparison is oriented
         if not pol:
             s = "not (%s)" % s if isinstance(t, (ast.BoolOp, ast.Compare, ast.IfExp)) else "not " + s
         conds.append(s)
@@ -176,6 +176,44 @@ def getattr_parts(expr):
     if isinstance(expr, ast.Call) and A.call_name(expr) == "getattr" and isinstance(expr.func, ast.Name) and len(expr.args) >= 2:
         return A.src(expr.args[0]), expr.args[1]
     return None
+
+
+def returned(fn, ret):
+    """The expression `return` statement *ret* of fn gives back: a local that has the same last definition on every
+    path reaching the statement is replaced by that definition (`_r = f(x); return _r` reads `f(x)`)."""
+    v = ret.value
+    if not (isinstance(v, ast.Name) and v.id not in A.func_params(fn)):
+        return v
+    vals = []
+    for p in P.paths_of(fn):
+        for i, e in enumerate(p.ev):
+            if e[0] == "stmt" and e[1] is ret:
+                vals.append(resolve_local(p, v.id, i))
+    if vals and all(x is not None for x in vals) and len(set(A.src(x) for x in vals)) == 1:
+        return vals[0]
+    return v
+
+
+def updates_of(p, target_src):
+    """How path p writes the attribute written *target_src*: (steps, other) where steps are the (op, value) of every
+    `T op= E`, `T = T op E` and (commutative op) `T = E op T`, and other are all remaining statements that bind T."""
+    steps, other = [], []
+    for s in p.stmts():
+        aa = A.as_augassign(s)
+        if aa is not None and A.src(aa[0]) == target_src:
+            steps.append((aa[1], aa[2]))
+            continue
+        if isinstance(s, ast.Assign) and len(s.targets) == 1 and A.src(s.targets[0]) == target_src and isinstance(s.value, ast.BinOp) \
+                and isinstance(s.value.op, (ast.Add, ast.Mult)) and A.src(s.value.right) == target_src:
+            steps.append((s.value.op, s.value.left))
+            continue
+        if any(A.src(t) == target_src for tt in A.assigned_targets(s) for t in ast.walk(tt)):
+            other.append(s)
+    return steps, other
+
+
+def is_plus_one(step):
+    return isinstance(step[0], ast.Add) and A.int_const(step[1]) == 1
 
 
 def check_adapters(ctx):
@@ -518,10 +556,13 @@ def check_wrappers(ctx):
         ps = [p for p in A.func_params(fn) if p != "self"]
         rets = [r for r in A.walk_local(fn) if isinstance(r, ast.Return)]
         w = want % ps[0] if "%s" in want else want
-        if len(rets) == 1 and rets[0].value is not None and A.src(rets[0].value) == w:
+        rv = returned(fn, rets[0]) if len(rets) == 1 and rets[0].value is not None else None
+        ncalls = len([c for c in A.walk_local(fn) if isinstance(c, ast.Call) and A.src(c.func) == "self._call"])
+        if rv is not None and A.src(rv) == w and ncalls == 1:
             ctx.ok("C05-b", fn, "%s returns %s" % (qual, w))
-        elif len(rets) == 1 and rets[0].value is not None and isinstance(rets[0].value, ast.Call) and A.src(rets[0].value.func) == "self._call":
-            ctx.violation("C05-b", rets[0], "%s returns `%s`, not %s" % (qual, A.src(rets[0].value), w), construct="call-forward:%s" % qual)
+        elif rv is not None and isinstance(rv, ast.Call) and A.src(rv.func) == "self._call":
+            ctx.violation("C05-b", rets[0], "%s returns `%s`%s, not %s" % (qual, A.src(rv), " and calls self._call %d times" % ncalls if ncalls != 1 else "", w),
+                          construct="call-forward:%s" % qual)
         else:
             ctx.unknown("C05-b", fn, "%s: unrecognised body" % qual)
     check_fill_seq(ctx)
@@ -685,7 +726,7 @@ def check_agree(ctx):
     if ctx.require(test_run is not None and len(ps) == 2 and len(body) == 1 and isinstance(body[0], ast.If), "C05-d", run,
                    "Filter.run / Filter.fill_into: unrecognised shape"):
         iff = body[0]
-        norm = lambda e, v: A.src_with(e, {v: "<V>"}) if e is not None else None
+        norm = lambda e, v: A.norm_src(e, {v: "<V>"}) if e is not None else None
         t1, t2 = norm(test_run, var), norm(iff.test, ps[1])
         ctx.check("C05-d", t1 == t2, iff, "Filter.run keeps a value when `%s`, Filter.fill_into fills it when `%s`: a filter before an "
                   "accumulator selects different values in a Sequence and in a FillComputeSeq/Split" % (A.src(test_run), A.src(iff.test)),
@@ -704,9 +745,9 @@ def check_agree(ctx):
         if p.end == "raise":
             continue
         n += 1
-        incs = [s for s in p.stmts() if isinstance(s, ast.AugAssign) and A.src(s.target) == "self.count"]
+        incs, other = updates_of(p, "self.count")
         fills = [c for _, c in p.calls() if isinstance(c.func, ast.Attribute) and c.func.attr == "fill" and A.src(c.func.value) == ps[0]]
-        ok = len(incs) == 1 and isinstance(incs[0].op, ast.Add) and A.src(incs[0].value) == "1" and len(fills) == 1
+        ok = len(incs) == 1 and is_plus_one(incs[0]) and not other and len(fills) == 1
         ctx.check("C05-d", ok, fn, "Count.fill_into counts %d time(s) and fills %d time(s) per value [%s]; run counts every value once "
                   "and passes every value on" % (len(incs), len(fills), p.describe(3)), detail="Count.fill_into: count += 1 once, fill once",
                   construct="count-fill-into", path=p)
@@ -728,7 +769,7 @@ def check_agree(ctx):
     n = 0
     for p in P.paths_of(fn):
         fills = [c for _, c in p.calls() if isinstance(c.func, ast.Attribute) and c.func.attr == "fill" and A.src(c.func.value) == ps[0]]
-        incs = [s for s in p.stmts() if isinstance(s, ast.AugAssign) and A.src(s.target) == "self._index"]
+        incs, other = updates_of(p, "self._index")
         if p.end == "raise":
             r = [s for s in p.stmts() if isinstance(s, ast.Raise)][-1]
             in_stop = any(e[0] == "exc" and e[1].type is not None and ctx.res.canon(e[1].type) == "builtins.StopIteration" for e in p.ev)
@@ -738,8 +779,8 @@ def check_agree(ctx):
                       detail="LenaStopFill only when the index iterator is exhausted", construct="slice-stop", path=p)
             continue
         n += 1
-        sel = "self._index == self._next_index" in p.literal_srcs()
-        ok = len(incs) == 1 and isinstance(incs[0].op, ast.Add) and A.src(incs[0].value) == "1" and len(fills) == (1 if sel else 0)
+        sel = A.norm_src(ast.parse("self._index == self._next_index").body[0].value) in K.lit_srcs(p, {}, norm=True)
+        ok = len(incs) == 1 and is_plus_one(incs[0]) and not other and len(fills) == (1 if sel else 0)
         if fills:
             ok = ok and A.src(fills[0]) == "%s.fill(%s)" % (ps[0], ps[1])
         ctx.check("C05-d", ok, fn, "Slice.fill_into on path [%s]: %d fill(s), index advanced %d time(s); a value is filled exactly when "
